@@ -80,7 +80,13 @@ pub fn broker_events(sys: &Sys, with_fail: bool) -> Vec<Ev> {
             }
         }
     }
-    if !sys.m.pings.is_empty() {
+    let pingresps = sys
+        .m
+        .inbox
+        .iter()
+        .filter(|p| matches!(p, SPacket::Pingresp))
+        .count();
+    if sys.m.pings.len() > pingresps {
         evs.push(Ev::Deliver(SPacket::Pingresp));
     }
     evs
